@@ -125,10 +125,24 @@ fn read_frame<R: BufRead>(r: &mut R) -> Option<String> {
 }
 
 impl Client {
-    fn spawn(log: &str, stderr: &str) -> Client {
+    /// `pin`: run every thread of the adapter on this one CPU (the threads then interleave at their blocking
+    /// points and wake-ups only, which makes the windows between two critical sections easy to hit).
+    fn spawn(log: &str, stderr: &str, pin: Option<usize>) -> Client {
+        use std::os::unix::process::CommandExt;
         let exe = std::fs::read_link("/proc/self/exe").expect("self exe");
         let errf = std::fs::File::create(stderr).expect("stderr file");
-        let mut child = Command::new(exe)
+        let mut cmd = Command::new(exe);
+        if let Some(cpu) = pin {
+            unsafe {
+                cmd.pre_exec(move || {
+                    let mut set: libc::cpu_set_t = std::mem::zeroed();
+                    libc::CPU_SET(cpu, &mut set);
+                    libc::sched_setaffinity(0, std::mem::size_of::<libc::cpu_set_t>(), &set);
+                    Ok(())
+                });
+            }
+        }
+        let mut child = cmd
             .arg("dap-child")
             .env("ST_DEBUG_TRACE", "1")
             .env_remove("ST_DEBUG_TRACE_LOG")
@@ -637,7 +651,10 @@ fn run_one(script: &J, work: &str) -> Result<Vec<J>, String> {
     let _ = std::fs::remove_file(&sock);
     let entry = script["entry"].as_bool().unwrap_or(false);
     let mut x = Exec {
-        c: Client::spawn(&log, &format!("{work}/stderr.txt")),
+        c: Client::spawn(&log, &format!("{work}/stderr.txt"), script["pin"].as_u64().map(|c| {
+            let n = std::thread::available_parallelism().map(|n| n.get()).unwrap_or(1);
+            c as usize % n
+        })),
         log: log.clone(),
         tr: Transcript::default(),
         path: path.clone(),
@@ -678,6 +695,32 @@ fn run_one(script: &J, work: &str) -> Result<Vec<J>, String> {
         }
     }
     x.handshake_seqs = x.c.seq;
+    // "sched": "others-first" = every thread of the adapter except its main thread gets a real-time priority (with
+    // `pin`: on one CPU), so that a thread the main thread wakes up runs before the main thread goes on.  A legal
+    // schedule, chosen from outside; used to hit the window between a resuming action and what follows it.
+    // "main-first" is the opposite: the main thread gets the real-time priority, i.e. it handles a pipelined request
+    // before a thread it has just woken up runs.
+    if script["sched"] == "others-first" || script["sched"] == "main-first" {
+        let main_first = script["sched"] == "main-first";
+        let pid = x.c.child.id() as i32;
+        let mut n = 0;
+        if let Ok(rd) = std::fs::read_dir(format!("/proc/{pid}/task")) {
+            for t in rd.flatten() {
+                if let Ok(tid) = t.file_name().to_string_lossy().parse::<i32>() {
+                    if (tid == pid) == main_first {
+                        let prm = libc::sched_param { sched_priority: 10 };
+                        if unsafe { libc::sched_setscheduler(tid, libc::SCHED_FIFO, &prm) } == 0 {
+                            n += 1;
+                        }
+                    }
+                }
+            }
+        }
+        if n == 0 {
+            x.c.kill();
+            return Err("sched: could not set a real-time priority on any adapter thread".into());
+        }
+    }
     // ---- the script
     for st in script["steps"].as_array().cloned().unwrap_or_default() {
         x.step(&st);
